@@ -1,5 +1,6 @@
 """JavaScript parser - produces an AST from tokens."""
 
+import copy
 from typing import List, Optional, Callable
 from .lexer import Lexer
 from .tokens import Token, TokenType
@@ -1301,7 +1302,7 @@ class Parser:
                     if self._match(TokenType.COLON):
                         value = self._parse_assignment_expression()
                     else:
-                        value = key
+                        value = copy.copy(key)  # {x} means {x: x}: the value is a reference of its own
                     return Property(key, value, "init", computed=False, shorthand=True)
             elif self.current.value == "set":
                 self._advance()
@@ -1324,7 +1325,7 @@ class Parser:
                     if self._match(TokenType.COLON):
                         value = self._parse_assignment_expression()
                     else:
-                        value = key
+                        value = copy.copy(key)  # {x} means {x: x}: the value is a reference of its own
                     return Property(key, value, "init", computed=False, shorthand=True)
 
         # Parse key
@@ -1377,7 +1378,7 @@ class Parser:
         else:
             # Shorthand property: {x} means {x: x}
             if isinstance(key, Identifier):
-                value = key
+                value = copy.copy(key)  # {x} means {x: x}: the value is a reference of its own
             else:
                 raise self._error("Expected ':' after property name")
 
